@@ -17,6 +17,13 @@ index_map = {}
 # Global variable that holds the global counter of source reference identifiers.
 next_index = 0  # pylint:disable=C0103
 
+_PACKAGE_DIR = os.path.dirname(os.path.abspath(__file__))
+
+
+def _in_package(filename: str) -> bool:
+    """Returns True for the source files of the nada_dsl package itself."""
+    return os.path.abspath(filename).startswith(_PACKAGE_DIR + os.sep)
+
 
 @dataclass
 class SourceRef:
@@ -33,6 +40,12 @@ class SourceRef:
     def back_frame(cls) -> "SourceRef":
         """Get the source reference of the calling frame."""
         backend_frame = inspect.currentframe().f_back.f_back
+        # Operators implemented through shared helpers (and literals or functions created by the
+        # DSL itself) reach this point with DSL frames on top of the user's frame.
+        while backend_frame.f_back is not None and _in_package(
+            backend_frame.f_code.co_filename
+        ):
+            backend_frame = backend_frame.f_back
         lineno = backend_frame.f_lineno
         (offset, length) = SourceRef.try_get_line_info(backend_frame, lineno)
         return cls(
@@ -47,7 +60,7 @@ class SourceRef:
         """Try to get line information from the source code."""
         # We don't include file sources from nada_dsl package.
         # This is to prevent 'nada_fn' wrongly adding nada_dsl source files from this package.
-        if "nada_dsl" in backend_frame.f_code.co_filename:
+        if _in_package(backend_frame.f_code.co_filename):
             return 0, 0
         filename = os.path.basename(backend_frame.f_code.co_filename)
 
